@@ -164,6 +164,11 @@ func c13(c *Ctx) {
 		}
 		row("codecs.(*AV1Payloader).Payload", "new packet when SpatialID or TemporalID differs", cmpd["SpatialID"] && cmpd["TemporalID"], fmt.Sprintf("fields compared for inequality: %v", cmpd))
 	}
+	minLenRule(c, []minLenRow{
+		{fn: "codecs.(*AV1Depacketizer).Unmarshal", want: []int{2}, minOnly: true, why: "aggregation header + >=1 octet"},
+		{fn: "codecs.(*AV1Packet).Unmarshal", want: []int{2}, minOnly: true, why: "aggregation header + >=1 octet"},
+		{fn: "codecs/av1/obu.ParseOBUHeader", want: []int{1, 2}, why: "OBU header, +1 with the extension flag"},
+		{fn: "codecs/av1/obu.ReadLeb128", want: []int{1}, minOnly: true, why: "a one-octet LEB128 value"}})
 	r.Floor("AV1 layout/structure rows", n, 20)
 	var entries []*ssa.Function
 	for _, nme := range []string{"codecs.(*AV1Payloader).Payload", "codecs.(*AV1Depacketizer).Unmarshal", "codecs.(*AV1Packet).Unmarshal", "codecs/av1/frame.(*AV1).ReadFrames",
